@@ -670,7 +670,7 @@ def _split_chain():
     H0 = "w.shape[0] == P and mp.shape[0] >= 4 * P and sz.shape[0] == mp.shape[0] and wt.shape[0] == mp.shape[0] and wt.shape[1] == mp.shape[1]"
     RS = "0 <= " + S + " and " + S + " <= mp.shape[1]"
     HYP = H0 + " and forall(0, mp.shape[0], lambda k: 0 <= sz[k] and sz[k] <= mp.shape[1])"
-    DIST = "forall(0, 4 * P, lambda k: forall(0, sz[k], lambda l: forall(0, l, lambda t: mp[k, t] != mp[k, l])))"
+    DIST = "forall(0, 4 * P, lambda k: forall(0, sz[k], lambda l: forall(0, l, lambda t: mp[k, t] != mp[k, l], pat=((mp[k, t], mp[k, l]),))))"
     W = "mp.shape[1]"
     QL = lambda hyp, body, pat: ("forall(0, P, lambda i: forall(0, 4, lambda j: forall(0, " + W + ", lambda l: forall(0, P, lambda a: forall(0, P, lambda b: implies("
                                  + hyp + ", " + body + "), pat=" + pat + ")))))")
@@ -829,10 +829,23 @@ def _split_qf_chain():
 
 
 _SQSP, _SQHYP, _SQHDEF = _split_qf_chain()
-# The second hypothesis is, verbatim, the conclusion of C07.split.outer_product (the outer-product form of the kernel's result); the two
-# corollaries are kept apart because in a joint proof context the shifted-sum lemma LA2 of c07_hsl no longer goes through by e-matching
-# (every partial-sum term spawns a chain of recurrence instances).  The call below only anchors the corollary; its result is not used.
-corollary("C07.quadratic_form.split", props=["C07"],
+# (a) chained to the kernel's contract: one corollary from the entrywise contract of pixel_splitted_regularization_matrix_from to the
+#     quadratic form (it re-proves the c07_hsa / c07_hsl lemmas in a larger context: the slowest obligation, LBe, then takes up to ~5 s);
+# (b) the same conclusion for ANY matrix of the outer-product form that C07.split.outer_product establishes (hypothesis = its conclusion,
+#     verbatim): small context, every obligation well under a second.  The call in (b) only anchors the corollary; its result is not used.
+corollary("C07.quadratic_form.split", props=["C07"], vars={"w": "real[1]", "mp": "int[2]", "sz": "int[1]", "wt": "real[2]", "x": "real[1]"},
+          let={"N": "mp.shape[0]", "P": "x.shape[0]"},
+          requires=["x.shape[0] == toint(mp.shape[0] / 4)"] + _SPREQ + [_DIST],      # rows list pairwise distinct pixels (as reg_split_from returns them)
+          calls=[("H", U + "pixel_splitted_regularization_matrix_from", {"regularization_weights": "w", "splitted_mappings": "mp", "splitted_sizes": "sz", "splitted_weights": "wt"})],
+          ensures=["H.shape[0] == P and H.shape[1] == P and forall(0, P, lambda a: forall(0, P, lambda b: H[a, b] == (1e-08 if a == b else 0) + c07_hs(w, mp, sz, wt, a, b)))",
+                   "forall(0, P, lambda a: forall(0, P, lambda b: c07_hsa(w, mp, sz, wt, a, b) == c07_hs(w, mp, sz, wt, a, b) and c07_hsl(w, mp, sz, wt, a, b) == c07_hs(w, mp, sz, wt, a, b)))",
+                   "c07_qs(H, x, w, mp, sz, wt, P) == " + _XHX,
+                   # x^T H x = 1e-8 |x|^2 + sum_i w_i^2 sum_{j<4} (L_{4i+j} . x)^2
+                   _XHX + " == 1e-08 * " + _X2P + " + " + _SQSP,
+                   _XHX + " >= 1e-08 * " + _X2P,
+                   "implies(exists(0, P, lambda a: x[a] != 0), " + _XHX + " > 0)"],
+          sentence="for the split-cross schemes x^T H x = 1e-8 |x|^2 + sum over cross rows of w^2 (L_k . x)^2, hence strictly positive definite")
+corollary("C07.quadratic_form.split_form", props=["C07"],
           vars={"H": "real[2]", "w": "real[1]", "mp": "int[2]", "sz": "int[1]", "wt": "real[2]", "x": "real[1]"}, let={"P": "x.shape[0]"},
           requires=[_SQHYP, "H.shape[0] == P and H.shape[1] == P and forall(0, P, lambda a: forall(0, P, lambda b: H[a, b] == (1e-08 if a == b else 0) + c07_hs(w, mp, sz, wt, a, b)))"],
           calls=[("Z0", U + "zeroth_regularization_matrix_from", {"coefficient": "0", "pixels": "0"})],
